@@ -26,7 +26,7 @@ def one(spec, jobs, tier):
     checks = [c for c in checks.split(",") if c]
     wt = ROOT / "wt" / name
     run = ROOT / "run" / name
-    sh(f"rm -rf {run}; mkdir -p {run}/ev {run}/rp {ROOT}/results {ROOT}/wt")
+    sh(f"rm -rf {run}; mkdir -p {run}/ev {run}/rp {ROOT}/results {ROOT}/results2 {ROOT}/results3 {ROOT}/wt")
     sh(f"git -C /repo worktree remove --force {wt}; rm -rf {wt}")
     res = dict(name=name, patch=patch, demo=demo, checks={})
     log = open(ROOT / f"{name}.log", "w")
